@@ -15,6 +15,11 @@ const int N_INT = 5;   // v0..v4 (+ t0,t1 fresh names for rename/expand)
 const int N_BOOL = 2;  // p0,p1
 const size_t MAX_WIT = 12;
 
+// BV profile (C13): width of the integer variables of the running case (0 = the
+// mathematical-integer profile). Set at the start of every check; the harness is
+// single threaded per process.
+static unsigned g_bvw = 0;
+
 struct Witness {
   std::map<std::string, mpz_class> i;
   std::map<std::string, bool> b;
@@ -33,16 +38,16 @@ struct Ctx {
   std::vector<std::string> ints, bools, fresh;
   const DomainInfo *di = nullptr;
   bool int64 = false;
-  Ctx() {
+  explicit Ctx(unsigned width = 32) {
     for (int k = 0; k < N_INT; k++)
       ints.push_back("v" + std::to_string(k));
     fresh = {"t0", "t1"};
     for (int k = 0; k < N_BOOL; k++)
       bools.push_back("p" + std::to_string(k));
     for (auto &n : ints)
-      vars.insert({n, var_t(vfac[n], crab::INT_TYPE, 32)});
+      vars.insert({n, var_t(vfac[n], crab::INT_TYPE, width)});
     for (auto &n : fresh)
-      vars.insert({n, var_t(vfac[n], crab::INT_TYPE, 32)});
+      vars.insert({n, var_t(vfac[n], crab::INT_TYPE, width)});
     for (auto &n : bools)
       vars.insert({n, var_t(vfac[n], crab::BOOL_TYPE, 1)});
   }
@@ -89,6 +94,20 @@ int eval_cst(const LinCst &c, const Witness &w) {
   mpz_class v;
   if (!eval_exp(c.e, w, v))
     return -1;
+  if (g_bvw) {
+    // judged only when no reading of the constraint (modular or mathematical, any
+    // evaluation order) can disagree: sum of |terms| and |constant| inside the signed range
+    mpz_class acc = abs(c.e.cst), lim;
+    for (auto &t : c.e.terms) {
+      auto it = w.i.find(t.first);
+      if (it == w.i.end())
+        return -1;
+      acc += abs(t.second * it->second);
+    }
+    mpz_ui_pow_ui(lim.get_mpz_t(), 2, g_bvw - 1);
+    if (acc >= lim)
+      return -1;
+  }
   switch (c.kind) {
   case LinCst::LEQ:
     return v <= 0;
@@ -104,6 +123,61 @@ int eval_cst(const LinCst &c, const Witness &w) {
 
 // concrete binary operation; returns false if the witness has no successor
 // or the operation is outside the reference semantics for these operands
+bool concrete_binop_bv(const std::string &k, mpz_class a, mpz_class b, bool b_is_const,
+                       mpz_class &r) {
+  unsigned w = g_bvw;
+  mpz_class hi, lo;
+  mpz_ui_pow_ui(hi.get_mpz_t(), 2, w);
+  mpz_ui_pow_ui(lo.get_mpz_t(), 2, w - 1);
+  if (b_is_const && (b < -lo || b >= hi))
+    return false; // crab answers top for a constant that does not fit: nothing to check
+  a = bv_wrap(a, w);
+  b = bv_wrap(b, w);
+  if (k == "add")
+    r = a + b;
+  else if (k == "sub")
+    r = a - b;
+  else if (k == "mul")
+    r = a * b;
+  else if (k == "sdiv" || k == "srem") {
+    if (b == 0 || (a == -lo && b == -1))
+      return false;
+    if (k == "sdiv")
+      mpz_tdiv_q(r.get_mpz_t(), a.get_mpz_t(), b.get_mpz_t());
+    else
+      mpz_tdiv_r(r.get_mpz_t(), a.get_mpz_t(), b.get_mpz_t());
+  } else if (k == "udiv" || k == "urem") {
+    if (b == 0)
+      return false;
+    mpz_class ua = bv_unsigned(a, w), ub = bv_unsigned(b, w);
+    if (k == "udiv")
+      mpz_tdiv_q(r.get_mpz_t(), ua.get_mpz_t(), ub.get_mpz_t());
+    else
+      mpz_tdiv_r(r.get_mpz_t(), ua.get_mpz_t(), ub.get_mpz_t());
+  } else if (k == "and")
+    r = a & b;
+  else if (k == "or")
+    r = a | b;
+  else if (k == "xor")
+    r = a ^ b;
+  else if (k == "shl" || k == "lshr" || k == "ashr") {
+    if (b < 0 || b >= w)
+      return false;
+    unsigned long s = b.get_ui();
+    if (k == "shl")
+      mpz_mul_2exp(r.get_mpz_t(), a.get_mpz_t(), s);
+    else if (k == "ashr")
+      mpz_fdiv_q_2exp(r.get_mpz_t(), a.get_mpz_t(), s);
+    else {
+      mpz_class ua = bv_unsigned(a, w);
+      mpz_fdiv_q_2exp(r.get_mpz_t(), ua.get_mpz_t(), s);
+    }
+  } else
+    return false;
+  r = bv_wrap(r, w);
+  return true;
+}
+
 bool concrete_binop(const std::string &k, const mpz_class &a, const mpz_class &b, mpz_class &r) {
   if (k == "add")
     r = a + b;
@@ -196,11 +270,29 @@ struct OpGen {
   int nregs;
   bool large;
   bool bools;
+  unsigned bvw = 0;
   OpGen(Rng &rr, int n, bool lg, bool bl) : r(rr), nregs(n), large(lg), bools(bl) {}
   std::string iv() { return "v" + std::to_string(r.below(N_INT)); }
   std::string bv() { return "p" + std::to_string(r.below(N_BOOL)); }
   int reg() { return (int)r.below(nregs); }
   mpz_class cst() {
+    if (bvw && r.chance(1, 4)) {
+      mpz_class half;
+      mpz_ui_pow_ui(half.get_mpz_t(), 2, bvw - 1);
+      long d = (long)r.range(0, 2);
+      switch (r.below(5)) {
+      case 0:
+        return half - 1 - d;
+      case 1:
+        return -half + d;
+      case 2:
+        return half / 2 + d;
+      case 3:
+        return 2 * half - 1 - d;
+      default:
+        return -(half / 2) - d;
+      }
+    }
     unsigned k = (unsigned)r.below(100);
     if (k < 50)
       return mpz_class((long)r.range(-4, 4));
@@ -499,10 +591,19 @@ struct Interp {
       // top: any valuation is a witness
       for (int k = 0; k < 4; k++) {
         Witness w;
+        auto draw = [&]() {
+          mpz_class v((long)r.range(-6, 6));
+          if (g_bvw && r.chance(1, 3)) {
+            mpz_class half;
+            mpz_ui_pow_ui(half.get_mpz_t(), 2, g_bvw - 1);
+            v = (r.coin() ? mpz_class(half - 1) : mpz_class(-half)) + v; // wraps around the signed pole
+          }
+          return g_bvw ? bv_wrap(v, g_bvw) : v;
+        };
         for (auto &n : cx.ints)
-          w.i[n] = mpz_class((long)r.range(-6, 6));
+          w.i[n] = draw();
         for (auto &n : cx.fresh)
-          w.i[n] = mpz_class((long)r.range(-6, 6));
+          w.i[n] = draw();
         for (auto &n : cx.bools)
           w.b[n] = r.coin();
         rg.wit.push_back(w);
@@ -524,6 +625,11 @@ struct Interp {
 
   // C03 monitor: every witness of register ri is described by its value
   bool check_reg(int ri, const char *after) {
+    if (g_bvw)
+      for (auto &r2 : regs)
+        for (auto &w : r2.wit)
+          for (auto &kv : w.i)
+            kv.second = bv_wrap(kv.second, g_bvw);
     Reg &rg = regs[ri];
     if (getenv("CRABSIM_HIST_TRACE"))
       fprintf(stderr, "hist step %ld after %s: r%d = %s (%zu witnesses)\n", step, after, ri,
@@ -608,7 +714,7 @@ struct Interp {
       std::vector<Witness> nw;
       for (auto w : rg.wit) {
         mpz_class a = w.i[y], b = has_z ? w.i[op.at("z").as_str()] : n, res;
-        if (concrete_binop(k, a, b, res)) {
+        if (g_bvw ? concrete_binop_bv(k, a, b, !has_z, res) : concrete_binop(k, a, b, res)) {
           w.i[x] = res;
           nw.push_back(w);
         }
@@ -1212,6 +1318,12 @@ Case gen_hist(const std::string &prop, Rng &r, const Tier &t, const std::vector<
   bool large = !(di->caps & CAP_INT64) && r.chance(1, 5);
   bool bools = (di->caps & CAP_BOOL) ? true : r.chance(1, 6);
   OpGen g(r, nregs, large, bools);
+  if (di->caps & CAP_BV) {
+    static const unsigned ws[] = {4, 8, 8, 8, 16, 32, 32, 64};
+    g.bvw = ws[r.below(8)];
+    g.large = false;
+    c.params.set("bv_width", (long)g.bvw);
+  }
   Json ops = Json::arr();
   int n = (int)r.range(5, t.thorough ? 60 : 35);
   // loop template (1 history in 4): a register is given the typical invariant of a
@@ -1282,10 +1394,12 @@ Outcome check_hist(const Case &c, Stats &st, bool raw) {
     out.refusal = "unknown domain";
     return out;
   }
+  g_bvw = (di->caps & CAP_BV) ? (unsigned)c.pint("bv_width", 8) : 0;
   GuardResult gr = guarded(5000000, [&]() {
-    Ctx cx;
+    Ctx cx(g_bvw ? g_bvw : 32);
     cx.di = di;
     Interp in(cx, c, st, out);
+    in.gopts.bv = g_bvw != 0;
     in.init((int)c.hist.at("nregs").as_int(2), c.exec_seed, raw);
     in.run_ops(c.hist.at("ops"));
     out.hash = in.h;
@@ -1382,6 +1496,30 @@ Outcome check_c04(const Case &c, Stats &st) {
   return o;
 }
 PropertyRegistrar reg_c04({"C04", "sim_hist", gen_c04, check_c04, hist_domains});
+
+// --- C13c: operation histories over the machine-integer domains with a mirror of
+// two's-complement witnesses (the C03 monitors under the BV profile)
+PropertyRegistrar reg_c13c({"C13c", "sim_hist",
+                            [](Rng &r, const Tier &t, const std::vector<std::string> &d) {
+                              Case c = gen_hist("C13", r, t, d, true, false);
+                              c.params.set("part", "histories");
+                              return c;
+                            },
+                            [](const Case &c, Stats &st) {
+                              Outcome o = check_hist(c, st, true);
+                              if (o.violated) {
+                                const std::string &m = o.v.monitor;
+                                if (m.compare(0, 4, "leq_") == 0 || m == "make_bottom_top" ||
+                                    m == "set_to_top" || m == "set_to_bottom") {
+                                  st.inc("other_property_violation_seen");
+                                  o.violated = false;
+                                }
+                              }
+                              return o;
+                            },
+                            [](const Tier &) {
+                              return domains_with(CAP_BV, CAP_ARRAY | CAP_REGION, false);
+                            }});
 
 // --- C05b: widening chains become stationary; widening/narrowing keep witnesses
 Case gen_c05b(Rng &r, const Tier &t, const std::vector<std::string> &doms) {
@@ -1533,7 +1671,8 @@ Outcome check_c05b(const Case &c, Stats &st) {
   }
   long strict = 0, L = 0;
   GuardResult gr = guarded(20000000, [&]() {
-    Ctx cx;
+    g_bvw = (di->caps & CAP_BV) ? (unsigned)c.pint("bv_width", 8) : 0;
+    Ctx cx(g_bvw ? g_bvw : 32);
     cx.di = di;
     Interp in(cx, c, st, out);
     in.property = "C05";
@@ -1662,7 +1801,8 @@ Outcome check_c16(const Case &c, Stats &st) {
   if (mode != 0)
     hooks().unusual_enabled = false;
   GuardResult gr = guarded(10000000, [&]() {
-    Ctx cx;
+    g_bvw = (di->caps & CAP_BV) ? (unsigned)c.pint("bv_width", 8) : 0;
+    Ctx cx(g_bvw ? g_bvw : 32);
     cx.di = di;
     int nregs = (int)c.hist.at("nregs").as_int(2);
     if (mode == 0) {
